@@ -213,6 +213,14 @@ func runC12(c *wk.Ctx) {
 		baseline := make([]c12Outcome, len(probes))
 		for i, p := range probes {
 			c.Note("baseline " + p.op)
+			if p.schemaArg >= 0 {
+				// schema comparisons get an instance nothing has been called on at all: an earlier accepted
+				// comparison is exactly the kind of history that must not matter
+				if pristine, okp := build(); okp {
+					baseline[i] = c12Call(pristine, p, nil)
+					continue
+				}
+			}
 			baseline[i] = c12Call(fresh, p, cmpx.DeepCopy(p.arg))
 		}
 		// history on the used instance
